@@ -22,6 +22,7 @@ import threading
 from concurrent.futures import ThreadPoolExecutor
 
 import pysparkling
+from common.coqlit import Err
 from pysparkling.exceptions import ContextIsLockedException
 
 ID = 'C04'
@@ -55,9 +56,13 @@ EXC = [ValueError, KeyError, TaskFault]
 LOCKED = 3
 FUNCS = [None, lambda x: x + 1, lambda x: x * 2, lambda x: -x]
 PYF = [lambda x: x, lambda x: x + 1, lambda x: x * 2, lambda x: -x]
-N_ACTIONS = 9
-ACTION_NAMES = ['collect', 'count', 'sum', 'reduce', 'fold', 'aggregate', 'foreach', 'foreachPartition', 'reduce-max']
+N_ACTIONS = 9            # actions 0..8 evaluate whole partitions
+ACTION_NAMES = ['collect', 'count', 'sum', 'reduce', 'fold', 'aggregate', 'foreach', 'foreachPartition', 'reduce-max',
+                'take(0)', 'take(1)', 'take(2)', 'take(3)', 'take(4)', 'take(5)', 'first', 'isEmpty']
+LAZY = range(9, 17)      # the lazily evaluated actions: take(n) for n = action - 9, first, isEmpty
 NEEDS_DATA = (3, 8)
+STOP = 5
+SUSPENDED = -2
 
 
 def exc_code(e):
@@ -65,6 +70,8 @@ def exc_code(e):
         return EXC.index(type(e))
     if type(e) is ContextIsLockedException:
         return LOCKED
+    if type(e) is StopIteration:
+        return STOP
     return type(e).__name__
 
 
@@ -89,6 +96,12 @@ def do_action(action, rdd):
         return rdd.foreachPartition(sink.extend)
     if action == 8:
         return rdd.reduce(max)
+    if 9 <= action <= 14:
+        return rdd.take(action - 9)
+    if action == 15:
+        return rdd.first()
+    if action == 16:
+        return rdd.isEmpty()
     raise ValueError(action)
 
 
@@ -107,7 +120,13 @@ def plain_result(job):
         return (sum(flat), len(flat))
     if action in (6, 7):
         return None
-    return max(flat)
+    if action == 8:
+        return max(flat)
+    if 9 <= action <= 14:
+        return flat[:action - 9]
+    if action == 15:
+        return flat[0] if flat else Err('StopIteration')
+    return not flat
 
 
 def n_failing(maxr, part):
@@ -134,7 +153,7 @@ def run_job(sc, maxr, mode, jidx, job):
     action, style, pre, post, parts = job
     n = len(parts)
     log = [[] for _ in parts]
-    barrier = threading.Barrier(n) if mode == 1 else None
+    barrier = threading.Barrier(n) if mode == 1 and action not in LAZY else None
     holder = {}
 
     def body(idx, it):
@@ -220,10 +239,10 @@ def impl(case):
         fe = first_exhausted(maxr, parts)
         logs = []
         for i, recs in enumerate(log):
-            if mode == 2 and fe is not None and i > fe:
+            if mode == 2 and fe is not None and i > fe and job[0] not in LAZY:
                 logs.append(1 if legal_log(maxr, parts[i], recs) else 0)
             else:
-                logs.append([(r[0], list(r[1]), list(r[2]), r[3]) for r in recs])
+                logs.append([(r[0], list(r[1]), list(r[2]), SUSPENDED if r[3] is None else r[3]) for r in recs])
         out.append((res, logs))
     return out
 
@@ -244,8 +263,39 @@ def oracle(case, result):
     return None
 
 
+def oracle_lazy(maxr, jidx, job, res, logs):
+    """take / first / isEmpty: they return the plain result or surface an error; a generator task function
+    is never retried (its first error reaches the caller directly)."""
+    action, style, _pre, _post, parts = job
+    name = ACTION_NAMES[action]
+    for i, recs in enumerate(logs):
+        for r in recs:
+            if any(o != 0 for o in r[1]):
+                return ('nested:accepted', f'partition {i} attempt {r[0]}: nested operation outcomes {r[1]} (1 = accepted)')
+        if len(recs) > (maxr if style else 1):
+            return ('lazy-action:retried', f'{name}: partition {i} was attempted {len(recs)} times')
+    want = plain_result(job)
+    if res[0] == 0:
+        if isinstance(want, Err) or res[1] != want:
+            return (f'lazy-action:result:{name}', f'expected {want!r}, got {res!r}')
+        return None
+    if res[1] == LOCKED and not any(not c for p in parts for _k, c in p[2]):
+        return ('runJob:locked', f'{name}: ContextIsLockedException, expected {want!r}')
+    if res[1] == STOP:
+        if not isinstance(want, Err):
+            return (f'lazy-action:result:{name}', f'expected {want!r}, got StopIteration')
+        return None
+    if not any(p[1] and p[1][0] is not None for p in parts) and not any(not c for p in parts for _k, c in p[2]):
+        return (f'lazy-action:result:{name}', f'no attempt fails, expected {want!r}, got {res!r}')
+    if not style and res[1] != LOCKED and res[2][2:] != (1,):
+        return ('lazy-action:retried', f'{name}: error {res!r} does not come from a first attempt')
+    return None
+
+
 def oracle_job(maxr, mode, jidx, job, res, logs):
     action, _style, pre, _post, parts = job
+    if action in LAZY:
+        return oracle_lazy(maxr, jidx, job, res, logs)
     name = ACTION_NAMES[action]
     fe = first_exhausted(maxr, parts)
     # nested operations are refused
@@ -306,7 +356,9 @@ def kind(case):
     maxr, mode, jobs = case
     fe = [first_exhausted(maxr, j[4]) is not None for j in jobs]
     nest = any(p[2] for j in jobs for p in j[4])
-    return f"{['local', 'pool-barrier', 'pool-free'][mode]}/{'fail' if any(fe) else 'ok'}{'/nested' if nest else ''}"
+    lazy = any(j[0] in LAZY for j in jobs)
+    return (f"{['local', 'pool-barrier', 'pool-free'][mode]}/{'fail' if any(fe) else 'ok'}"
+            f"{'/nested' if nest else ''}{'/lazy-action' if lazy else ''}")
 
 
 # ------------------------------------------------------------------ generation
@@ -396,11 +448,27 @@ def generate(rng, tier):
             for nf in (1, 2):
                 parts = [(gen_data(rng, 3), [], []), (gen_data(rng, 2), [gen_fault(rng) for _ in range(nf)], [])]
                 cases.append((2, mode, [fix_job(rng, 2, mode, (action, rng.randrange(2), 1, 2, parts)), simple_job(rng)]))
-    # 5. random job sequences
+    # 5. lazily evaluated actions (take(n), first, isEmpty): generator and eager task functions, faults in
+    #    the first attempt of the first / a later partition, on every executor, followed by a fresh job
+    for action in LAZY:
+        for style in (0, 1):
+            for mode in (0, 1, 2):
+                for _ in range(2 if quick else 8):
+                    maxr = rng.randint(1, 3)
+                    parts = []
+                    for _i in range(rng.randint(1, 3)):
+                        plan = [gen_fault(rng) for _ in range(rng.choice([0, 0, 1, 1, maxr, maxr + 1]))]
+                        nest = list(rng.choice(NESTS[1:])) if rng.random() < 0.2 else []
+                        parts.append((gen_data(rng), plan, nest))
+                    cases.append((maxr, mode, [(action, style, rng.randrange(4), rng.randrange(4), parts), simple_job(rng)]))
+    # 6. random job sequences
     for _ in range(500 if quick else 6000):
         maxr = rng.randint(1, 4)
         mode = rng.choice([0, 0, 1, 2])
         jobs = [random_job(rng, maxr, mode) for _ in range(rng.choice([1, 2, 2, 3]))]
+        if rng.random() < 0.2:
+            k = rng.randrange(len(jobs))
+            jobs[k] = (rng.choice(LAZY),) + jobs[k][1:]
         cases.append((maxr, mode, jobs))
     return cases
 
